@@ -13,7 +13,6 @@ import (
 	"time"
 
 	"github.com/arm-doe/sts"
-	"github.com/arm-doe/sts/fileutil"
 )
 
 type logMsg struct {
@@ -64,17 +63,30 @@ func (f *FileIO) Sent(file sts.Sent) {
 	<-f.loggedCh
 }
 
-func (f *FileIO) wasWritten(relPath, hash string, after time.Time, before time.Time) bool {
-	strings := []string{relPath}
-	if hash != "" {
-		strings = append(strings, fmt.Sprintf(":%s:", hash))
-	}
-	return f.logger.search(strings, after, before)
+// wasWritten looks for a record of exactly this name (and hash, if given) in the
+// log files of the time range.  A record starts with "<name>:"; hashField is the
+// position of the hash among the ":"-separated fields that follow the name.
+func (f *FileIO) wasWritten(
+	relPath, hash string, hashField int, after time.Time, before time.Time,
+) bool {
+	prefix := relPath + ":"
+	return f.logger.eachLine(func(line string) bool {
+		rest, found := strings.CutPrefix(line, prefix)
+		if !found {
+			return false
+		}
+		if hash == "" {
+			return true
+		}
+		fields := strings.Split(rest, ":")
+		return hashField < len(fields) && fields[hashField] == hash
+	}, after, before)
 }
 
 // WasSent tries to find the path specified between the times specified
 func (f *FileIO) WasSent(relPath, hash string, after time.Time, before time.Time) bool {
-	return f.wasWritten(relPath, hash, after, before)
+	// <name>:<hash>:<size>:<time>: <N> ms
+	return f.wasWritten(relPath, hash, 0, after, before)
 }
 
 // Received logs a file after it's been received
@@ -91,7 +103,8 @@ func (f *FileIO) Received(file sts.Received) {
 
 // WasReceived tries to find the path specified between the times specified
 func (f *FileIO) WasReceived(relPath, hash string, after time.Time, before time.Time) bool {
-	return f.wasWritten(relPath, hash, after, before)
+	// <name>:<renamed>:<hash>:<size>:<time>:
+	return f.wasWritten(relPath, hash, 1, after, before)
 }
 
 // Parse reads the log files in the provided time range and calls the handler
@@ -362,26 +375,4 @@ func (rf *rollingFile) eachLine(handler func(string) bool,
 		return false
 	}, start, stop)
 	return broke
-}
-
-// search will look for a given text patterns to match a single line in the log
-// history
-func (rf *rollingFile) search(text []string, start time.Time, stop time.Time) bool {
-	if len(text) == 0 {
-		return false
-	}
-	b := []byte(text[0])
-	var line string
-	return rf.each(func(path string) bool {
-		line = fileutil.FindLine(path, b)
-		if line == "" {
-			return false
-		}
-		for _, t := range text[1:] {
-			if !strings.Contains(line, t) {
-				return false
-			}
-		}
-		return true
-	}, start, stop)
 }
